@@ -3,6 +3,6 @@ CONSTANTS
   Peers = {"p1", "p2"}
   Self = "self"
   MaxEpoch = 3
-  Defects = {"StaleLeftEpoch", "StickyLeftFilter"}
+  Defects = {"StaleLeftEpoch", "LateStartReassign", "StickyLeftFilter"}
   Depth = 12
 CONSTRAINT Emit
